@@ -221,3 +221,28 @@ def oracle_slowreply(d):
     if d.get("get_after") != "returned":
         p.append("C01: the actor is no longer usable after a slow reply: get() -> %s (log %s, drops %s)" % (d.get("get_after"), d.get("log"), d.get("drops")))
     return p
+
+
+def oracle_nothread(d):
+    """C04: a handle exists only together with its one running actor - when the thread cannot be created the constructor fails loudly"""
+    if "error" in d:
+        return ["harness: " + d["error"]]
+    if not d.get("injected"):
+        return ["harness: the OS never refused a thread (fault not injected)"]
+    if d["outcome"] == "handle" and (not d["served"] or d["drops_while_handle_exists"] != 0):
+        return ["C04: the constructor returned a handle although no actor thread could be started: the actor value was dropped %d time(s) while the handle exists, "
+                "a call through the handle is %s" % (d["drops_while_handle_exists"], "served" if d["served"] else "not served")]
+    return []
+
+
+def oracle_chain(d):
+    """C01: a method of one actor may use the handle of another actor of the same type like any client: the call returns the value the
+    other actor computed and both actors live on"""
+    if "error" in d:
+        return ["harness: " + d["error"]]
+    p = []
+    if d["outcome"] != "returned" or d.get("value") != 5:
+        p.append("C01: relay(5) through actor A, which calls add(5) on actor B of the same type, ended as %s / %s (expected 5): log A %s, log B %s" % (d["outcome"], d.get("value"), d.get("log_a"), d.get("log_b")))
+    if d.get("a_after") != "returned" or d.get("b_after") != "returned":
+        p.append("C01: after the relayed call actor A is %s and actor B is %s (both must still serve calls)" % (d.get("a_after"), d.get("b_after")))
+    return p
